@@ -408,6 +408,24 @@ def check(ctx):
                 if only:
                     ok = is_sim3 and a_part.args[1][2] is S and \
                         not any(x is R or x is Tt for x in a_part.walk())
+                    if ok:
+                        # ... and the identity rotation / zero translation
+                        # of the right size
+                        r0, t0 = a_part.args[1][0], a_part.args[1][1]
+                        dim_r = r0.args[1][0].args[1] if is_call_to(
+                            r0, "numpy.eye", "numpy.identity") and r0.args[1] \
+                            and tm.is_const(r0.args[1][0]) else None
+                        dim_t = t0.args[1][0].args[1] if is_call_to(
+                            t0, "numpy.zeros") and t0.args[1] and \
+                            tm.is_const(t0.args[1][0]) else None
+                        if dim_r is None or dim_t is None:
+                            ctx.undecidable(
+                                "C04.6", stores[-1], f"{f.name}[{mode}]: "
+                                f"identity rotation / zero translation of "
+                                f"the scale-only record not recognised: "
+                                f"{fmt(a_part)[:100]}")
+                            continue
+                        ok = (dim_r, dim_t) == (3, 3)
                     ctx.ob("C04.6", stores[-1], ok,
                            f"{f.name}[{mode}]: scale-only: recorded matrix "
                            f"carries the scale and no rotation/translation"
